@@ -228,6 +228,8 @@ def cases(tier, seed):
         out.append(dict(i=i, seed=seed, **e)); i += 1
     for _ in range(NSAMPLED[tier]):
         out.append(dict(i=i, seed=seed, type="sampled")); i += 1
+    for j in range(NBORROWED[tier]):
+        out.append(dict(i=i, seed=seed, type="borrowed", j=j)); i += 1
     return out
 
 
@@ -658,6 +660,43 @@ def run_sampled(case, res):
                              flag=getattr(run.soln, "flag", None), msg=getattr(run.soln, "msg", None))
 
 
+NBORROWED = {"quick": 700, "thorough": 14000}
+BORROW = [("c01", "make_cfg", ()), ("c01", "make_active_cfg", ()), ("c02", "make_cfg", ()), ("c03", "make_cfg", ("rand",)),
+          ("c04", "make_cfg", ("rand",)), ("c04", "make_cfg", ("grow",)), ("c04", "make_cfg", ("perturb",)), ("c04", "make_cfg", ("nanregion",)),
+          ("c08", "make_cfg", ()), ("c09", "make_cfg", ()), ("c10", "make_cfg", ("rand",)), ("c11", "make_cfg", ()), ("c18", "make_cfg", ()),
+          ("c19", "make_cfg", ()), ("c20", "make_cfg", ())]
+
+
+def run_borrowed(case, res):
+    """Valid calls taken from the generators of the OTHER solver-level checks (each of which counts an exception out of solve() as
+    'not mine'): whatever combination of options, averaging, restarts, faults, failpoints and calling forms any of them produces, the
+    call must return a well-formed result. Case indices are offset so that these are not the very cases those checks run."""
+    import importlib
+    st = res["stats"]
+    mod, fn, extra = BORROW[case["j"] % len(BORROW)]
+    m = importlib.import_module("vf.props." + mod)
+    idx = 100000 + case["j"] // len(BORROW)
+    cfg = case.get("cfg") or getattr(m, fn)(case["seed"], idx, *extra)
+    case["cfg"] = cfg
+    run = gen.run_cfg(cfg, timeout=(150 if cfg.get("proj") else 90))
+    oracles.common_stats(run, st)
+    if run.timeout:
+        res["inconclusive"].append("watchdog")
+        return
+    if isinstance(run.exc, (engine.InjectedFault, gen.ArgsNotPassedThrough)) or (run.exc is not None and cfg.get("faults") and any(v == "raise" for v in cfg["faults"].values())):
+        st["borrowed_runs_ended_by_an_injected_exception"] = st.get("borrowed_runs_ended_by_an_injected_exception", 0) + 1
+        if isinstance(run.exc, gen.ArgsNotPassedThrough):
+            res["viol"].append(V("extra-arguments-not-passed-through", "[borrowed %s.%s %d] %s" % (mod, fn, idx, run.exc)))
+        return
+    well_formed(run, st, "borrowed %s.%s%s case %d" % (mod, fn, list(extra), idx), res["viol"], cfg=cfg, known=known_for(cfg), expect="accepted")
+    st["borrowed_calls"] = st.get("borrowed_calls", 0) + 1
+    st["borrowed_from|" + mod] = st.get("borrowed_from|" + mod, 0) + 1
+    res["nontrivial"].append("bor|" + oracles.cfg_hash(cfg))
+    if case["j"] % 150 == 0:
+        res["sample"] = dict(kind="borrowed", source="%s.%s" % (mod, fn), args=cfg["args"], user_params=cfg["user_params"],
+                             flag=getattr(run.soln, "flag", None), msg=getattr(run.soln, "msg", None))
+
+
 def run_pinned(case, res):
     st = res["stats"]
     cfg = case["cfg"]
@@ -672,7 +711,7 @@ def run_pinned(case, res):
 def run_case(case):
     res = dict(stats={}, viol=[], nontrivial=[], inconclusive=[])
     {"invalid": run_invalid, "param": run_param, "unknown_key": run_unknown_key, "exit_names": run_exit_names,
-     "sampled": run_sampled, "pinned": run_pinned}[case["type"]](case, res)
+     "sampled": run_sampled, "pinned": run_pinned, "borrowed": run_borrowed}[case["type"]](case, res)
     return res
 
 
